@@ -38,6 +38,13 @@ def tasks(tier, seed):
             P.append({"family": "CHAIN", "id": text_id(t), "text": t, "meta": {"depth": d, "diamond": dia}})
     for t in EXTRA:
         P.append({"family": "JAC", "id": text_id(t), "text": t, "meta": {}})
+    shared = ("parameters(k=0.5)\nstates(" + ", ".join(f"g{i}={0.1 * (i + 1)}" for i in range(7)) + ", v=-1.0)\n"
+              "vs = v*k + 1\nu = vs*vs\ne = exp(-u)\nsig = 1/(1 + e)\n" + "".join(f"dg{i}_dt = (sig - g{i})*{i + 1}\n" for i in range(7)) + "dv_dt = -v + g0*g3\n")
+    P.append({"family": "JAC", "id": text_id(shared), "text": shared, "meta": {}})
+    from . import c12
+    P += [{"family": "JAC", "id": text_id(t), "text": t, "meta": {}} for t in c12.UNUSED]
+    tie = "parameters(a=0.7, b=0.8, c3=3.0)\nstates(v=-1.0, w=1.0, s=0.5)\ntau_w = 1/(b*c3)\ndv_dt = c3*(v - v*v*v/3 + w)\ndw_dt = -(v - a + b*w)/c3\nds_dt = -s + v\n"
+    P.append({"family": "JAC", "id": text_id(tie), "text": tie, "meta": {}})
     dg = families.dag_family(3, 2)
     P += families.select(dg, 20 if tier == "quick" else 400, seed)
     P += families.pack(families.select(families.cond_family(), 16 if tier == "quick" else None, seed), "COND", per=2)
